@@ -100,6 +100,8 @@ func replayAny(o *Out, lines []string) {
 		case "noise":
 			if len(f) > 1 && f[1] == "sm" { // [hv-sm] probes of the seat-manager histories (scratch instance, no effect on the table under test)
 				smr.replay([]string{l})
+			} else if len(f) > 1 && f[1] == "rg" { // [hv-rg] `noise rg late <t>`: a late release report follows (rg.go)
+				rgLines = append(rgLines, l)
 			} else if h != nil && len(f) > 1 {
 				h.noise(int(atoi(f[1])))
 			}
